@@ -1,7 +1,7 @@
 """C10 — conv-probe property (see vlib/props/convprops.py)."""
 from vlib.props import convprops as P, convcommon as cc
 from vlib import convgen as g
-globals().update(P.make('C10', 'conv probe over a real in-process TLS upgrade: walks and sweeps in TLS configurations with STARTTLS at a random point, optionally with plaintext (MAIL/RCPT) injected behind the STARTTLS line in the same segment. non-trivial = at least one callback', ['C10_refused_unless_available', 'startTLS_success', 'C10_server_fresh', 'C10_no_plaintext_in_tls', 'C10_upgrade_discards_session', 'C10_new_session_sees_tls', 'C10_failed_handshake_changes_nothing'], [('failed-handshake', P.hsfail_convs)], lambda a: cc.project(a, codes='class', enh=False, ehlo=True, drecs='none'), tls=True, configs=g.TLS_CONFIGS, structural=True))
+globals().update(P.make('C10', 'conv probe over a real in-process TLS upgrade: walks and sweeps in TLS configurations with STARTTLS at a random point, optionally with plaintext (MAIL/RCPT) injected behind the STARTTLS line in the same segment. non-trivial = at least one callback', ['C10_refused_unless_available', 'startTLS_success', 'C10_server_fresh', 'C10_no_plaintext_in_tls', 'C10_upgrade_discards_session', 'C10_new_session_sees_tls', 'C10_failed_handshake_changes_nothing', 'C10_client_plain_frozen', 'C10_client_plaintext_only_upgrade', 'C10_client_stops_when_upgrade_fails'], [('failed-handshake', P.hsfail_convs)], lambda a: cc.project(a, codes='class', enh=False, ehlo=True, drecs='none'), tls=True, configs=g.TLS_CONFIGS, structural=True))
 
 # --- client half: NewClientStartTLS / package-level SendMail against scripted, possibly misbehaving servers -----------
 from vlib.core import Group as _Group
